@@ -878,6 +878,80 @@ func init() {
 				},
 			},
 			{
+				// a region that surrounds the box and reaches into it through a slit, or lies outside and reaches in with a spike,
+				// of any width from 1e-13 to 1: the two cuts on one side of the box are then almost, but not, the same point
+				Name: "thin-slits-and-spikes", Count: h.Fixed(600, 60000),
+				Run: func(c *h.Ctx, idx uint64, r *h.Rand) {
+					w := []float64{1e-13, 2e-12, 1e-11, 1e-9, 1e-6, 1e-3, 0.1, 1}[r.Intn(8)] * r.Uniform(0.5, 2)
+					x0 := r.Uniform(1, 9)
+					tip := P{r.Uniform(1, 9), r.Uniform(1, 9)}
+					var ring []P
+					slit := r.Bool()
+					if slit {
+						// the square [-5,15]^2 with a wedge cut out from its top side down to the tip
+						ring = []P{{-5, -5}, {15, -5}, {15, 15}, {x0 + w/2, 15}, tip, {x0 - w/2, 15}, {-5, 15}, {-5, -5}}
+					} else {
+						// a bar above the box with a wedge hanging down to the tip
+						ring = []P{{-5, 12}, {x0 - w/2, 12}, tip, {x0 + w/2, 12}, {15, 12}, {15, 15}, {-5, 15}, {-5, 12}}
+					}
+					box := [4]float64{0, 0, 10, 10}
+					swap, fx, fy := r.Bool(), r.Bool(), r.Bool()
+					flips := 0
+					for i := range ring {
+						p := ring[i]
+						if fx {
+							p[0] = 10 - p[0]
+						}
+						if fy {
+							p[1] = 10 - p[1]
+						}
+						if swap {
+							p[0], p[1] = p[1], p[0]
+						}
+						ring[i] = p
+					}
+					for _, f := range []bool{swap, fx, fy} {
+						if f {
+							flips++
+						}
+					}
+					if flips%2 == 1 {
+						gen.Reverse(ring)
+					}
+					o := orb.CCW
+					if r.Bool() {
+						o = orb.CW
+						gen.Reverse(ring)
+					}
+					if c16contact(box, ring) || !cutByBox(box, ring) {
+						return
+					}
+					c.Note([]byte(fmt.Sprintf("box=%v ring=%v o=%d", box, ring, o)))
+					in := [][][]P{{ring}}
+					exp := plainClipArea(box, in)
+					qs := c16queries(r, box, 30)
+					b := boundOf(0, 0, 10, 10)
+					for name, f := range map[string]func() orb.MultiPolygon{
+						"Ring":         func() orb.MultiPolygon { return smartclip.Ring(b, pToRing(ring), o) },
+						"Polygon":      func() orb.MultiPolygon { return smartclip.Polygon(b, orb.Polygon{pToRing(ring)}, o) },
+						"MultiPolygon": func() orb.MultiPolygon { return smartclip.MultiPolygon(b, orb.MultiPolygon{{pToRing(ring)}}, o) },
+					} {
+						var out orb.MultiPolygon
+						pv, st := h.Catch(func() { out = f() })
+						c.Eval()
+						if pv != nil {
+							c.Fail("", "smartclip."+name+" panicked", map[string]interface{}{"ring": ring, "orientation": int(o), "panic": sv(pv), "stack": st})
+							continue
+						}
+						if msg, det := c16judge(box, in, o, out, exp, qs, 20); msg != "" {
+							c.Fail("", "smartclip."+name+" (thin slit or spike): "+msg, map[string]interface{}{"ring": ring, "width": w, "slit": slit, "orientation": int(o), "output": sv(out), "detail": det})
+						}
+					}
+					c.Nontrivial(h.Mix(hashP(ring), uint64(o+2)))
+					c.Sample(map[string]interface{}{"ring": ring, "width": w, "slit": slit, "orientation": int(o)})
+				},
+			},
+			{
 				// a fixed (seed-independent) list of contact configurations with richer rings: simple rings of 5..9
 				// vertices on the integer grid against integer boxes; judged against the committed list like the grid
 				Name: "fixed-list-contact-rings", Count: h.Fixed(150000, 2000000),
